@@ -89,7 +89,7 @@ class Builder:
         r = self.run("layer")
         m = r.fi
         pname = ("param", m.param_names[1])
-        cands = [e for e in r.of("setitem") if e.data["key"] == pname and e.data["obj"][0] == "attr" and e.data["obj"][1] == SELF]
+        cands = [e for e in r.of("setitem") if e.data["key"] == pname and _rooted_at_self(e.data["obj"])]
         stores = {e.data["obj"] for e in cands}
         if len(stores) != 1:
             raise AnalysisError(f"{m.fq}: the mapping that receives the new layer under its name was not found ({len(stores)} candidates)")
@@ -116,27 +116,51 @@ class Builder:
             return None
         if elt != key:
             return None
-        preds = [self.emptiness(c, val) for c in ifs]
-        if any(p is None for p in preds) or len(preds) != 1:
-            return None
-        return preds[0]
+        return self.emptiness(ifs[0] if len(ifs) == 1 else ("and", tuple(ifs)), val)
 
     @staticmethod
-    def emptiness(c: Term, v: Term) -> str | None:
-        """'agnostic' (`not v`, `len(v) == 0`), 'list' (`v == []`), 'tuple' (`v == ()`) or None."""
-        if c == ("not", v):
-            return "agnostic"
-        if c[0] == "cmp" and c[1] == "Eq":
-            for a, b in ((c[2], c[3]), (c[3], c[2])):
-                if a == v and b[0] in ("list", "tuple", "set") and not b[1]:
-                    return b[0]
-                if a == ("call", "len", (v,)) and b == ("const", 0):
-                    return "agnostic"
-        if c[0] == "cmp" and c[1] in ("Lt",) and c[2] == ("call", "len", (v,)) and c[3] == ("const", 1):
-            return "agnostic"
-        if c == ("not", ("call", "len", (v,))):
-            return "agnostic"
-        return None
+    def emptiness(c: Term, v: Term) -> str:
+        """Evaluates the test on an empty list and an empty tuple standing for the value: 'agnostic' (`not v`, `len(v) == 0`),
+        'list' (`v == []`), 'tuple' (`v == ()`), 'never' (true for neither, e.g. `v is None`) or '?' (not evaluable)."""
+
+        class Unknown(Exception):
+            pass
+
+        def val(t: Term, x):
+            if t == v:
+                return x
+            op = t[0]
+            if op == "const":
+                return t[1]
+            if op in ("list", "tuple", "set") and not t[1]:
+                return {"list": [], "tuple": (), "set": set()}[op]
+            if op == "not":
+                return not val(t[1], x)
+            if op == "and":
+                return all(val(y, x) for y in t[1])
+            if op == "or":
+                return any(val(y, x) for y in t[1])
+            if op == "call" and t[1] in ("len", "bool", "list", "tuple") and len(t[2]) == 1:
+                return {"len": len, "bool": bool, "list": list, "tuple": tuple}[t[1]](val(t[2][0], x))
+            if op == "cmp":
+                l, r = val(t[2], x), val(t[3], x)
+                if t[1] == "Is":
+                    if r is None or l is None:
+                        return l is r
+                    raise Unknown
+                import operator
+
+                fn = {"Eq": operator.eq, "Lt": operator.lt, "LtE": operator.le, "Gt": operator.gt, "GtE": operator.ge}.get(t[1])
+                if fn is None:
+                    raise Unknown
+                return fn(l, r)
+            raise Unknown
+
+        try:
+            on_list, on_tuple = bool(val(c, [])), bool(val(c, ()))
+        except (Unknown, TypeError):
+            return "?"
+        return {(True, True): "agnostic", (True, False): "list", (False, True): "tuple", (False, False): "never"}[(on_list, on_tuple)]
 
     def canon(self, t: Term) -> str | None:
         if t[0] == "comp" or t[0] == "call":
@@ -220,6 +244,14 @@ class Builder:
     @staticmethod
     def _first_bv(comp: Term) -> Term:
         return ("bv", comp[4])
+
+
+def _rooted_at_self(t: Term) -> bool:
+    while t[0] == "attr":
+        t = t[1]
+        if t == SELF:
+            return True
+    return False
 
 
 def normalised(t: Term, p: Term, enc: Enc, pc_f) -> bool:
@@ -538,6 +570,14 @@ def check_marker(b: Builder, res: Result, names: list[str]) -> None:
             stored.append((n, e, value_kind(e.data["value"])))
     bad = []
     unknown = []
+    if "never" in kinds:
+        t = next(t for k, t in preds if k == "never")
+        verdict(res, b.run("layer"), "C16.R3", key, False, f"`{show(t)[:120]}` does not recognise a layer with an empty definition as pending, so the next layer can be opened before it received its modules", kind="structural")
+        return
+    if "?" in kinds:
+        t = next(t for k, t in preds if k == "?")
+        res.undecide("C16.R3", key, f"the test that recognises pending layers in `{show(t)[:120]}` could not be evaluated on an empty definition")
+        return
     for k in kinds:
         if k == "agnostic":
             continue
@@ -685,6 +725,15 @@ def check_are_named(repo: Repo, F: RuleFacts, res: Result, arch: Term, rule: Ter
         if equivalent(raised, want, started):
             hit = (c, want)
     if hit is None:
+        from core.guards import atoms_of
+
+        vocab = atoms_of(S) | atoms_of(L) | atoms_of(none) | atoms_of(arch_none)
+        for c in subj:
+            vocab |= atoms_of(enc.truth(c))
+        extra = sorted(a for a in atoms_of(raised) - vocab if satisfiable(raised, started))
+        if extra and subj:
+            res.undecide("C16.R2", key, f"the configuration errors of are_named depend on `{extra[0]}`, which is neither the side flag, the subject of the wrapped rule nor the kind of the argument (raised iff `{_show_f(raised)}`)", f"{m.relpath}:{m.node.lineno}")
+            return
         if not subj:
             detail = f"are_named does not extend the subject of the wrapped rule on the subject side (configuration error raised iff `{_show_f(raised)}`)"
         else:
